@@ -1,6 +1,9 @@
-//go:build verif
+//go:build verif && !nohook_c06
 
 package hsms
+
+// VerifC06Hook: VerifC06SetSysBytes reaches the counter.
+const VerifC06Hook = true
 
 // VerifC06SetSysBytes positions the per-connection System Bytes counter so that the next value
 // the library draws is last+1 (mod 2^32). The C06 check uses it to start a run just below a
